@@ -19,7 +19,7 @@ CHECKS = {
     "C02": dict(
         text="Chunk positions and generated-end information of every recorded stream (columns x final-source, the latter obtained through a "
              "spy child, no hook) are compared by TLC with the position table of the reassembled text (Text.tla). The ReplaceSource offset machine is also modelled branch for branch (ReplaceM), model-checked against Splice / the position table, and every recorded stream of a tree without user children is compared with the composed tree model TreeM / TreeC (MODEL-DRIFT only).",
-        note=COMMON_NOTE + " Domain restricted to ASCII/consistent maps by the TLA+ predicate AsciiConsistent.",
+        note=COMMON_NOTE + " Domain: the TLA+ predicate PosDomain = AsciiConsistent (ASCII texts, consistent maps) or ByteColumnTree (raw / original leaves, ConcatSource, ReplaceSource on character boundaries, boxes with any text, binary included).",
         technique="TLA+ position oracle + TLC trace validation",
     ),
     "C03": dict(
@@ -90,7 +90,7 @@ CHECKS = {
     "C15": dict(
         text="SourceMap values over an alphabet of quotes, backslashes, control characters, U+2028/2029, 2-byte and astral characters are "
              "serialised (to_json, to_writer), the document is read by an independent parser (serde_json) and logged field by field, and parsed "
-             "back through from_json / from_slice / from_reader; TLC decides the document-level relation DocOf / ValOf (omission of "
+             "back through from_json / from_slice / from_reader (also through readers that hand out 1 or 7 bytes per call and interrupt once); to_writer is driven by every writer script of the environment model IoM.tla (answers to the first three write calls: short, Ok(0), hard error, interrupted) and by short-write writers; TLC decides the document-level relation DocOf / ValOf (omission of "
              "sourcesContent, optional fields, null entries, missing arrays, reordered and unknown keys).",
         note=COMMON_NOTE + " The byte-level JSON grammar is not specified in TLA+: 'an independent parser accepts it' rests on serde_json (trusted).",
         technique="TLA+ document/value relation + TLC trace validation; independent parser in the harness",
@@ -129,8 +129,8 @@ CHECKS = {
              "on grammar strings spelled by the specification (redundant continuation digits, empty segments, backward columns) and on all "
              "single-field deltas of the tier's bound; TLC compares with the v3 format as specified in Vlq.tla (decoder, digit emission) and "
              "checks resolution equivalence, subsequence-of-input and re-encode stability; the line-only encoder is reached through "
-             "map(columns=false) of a one-child ConcatSource over a scripted child. EncM (both encoders) and DecM (the byte-level decoder, junk behaviour included) are model-checked against the format and bound to the recorded outputs (MODEL-DRIFT only).",
-        note=COMMON_NOTE + " Values capped at 2^30 (the property's bound and TLC's 32-bit integers).",
+             "map(columns=false) of a one-child ConcatSource over a scripted child. EncM (both encoders) and DecM (the byte-level decoder, junk behaviour included) are model-checked against the format and bound to the recorded outputs (MODEL-DRIFT only). The whole u32 range of the fields is decided through VlqW.tla (values as pairs of 16-bit halves, an independent wide reader of the format; scope c12wide = the corners of the range in every field; design check MC_VlqW with the 32-bit shift refuted).",
+        note=COMMON_NOTE + " Resolution / subsequence oracles work below 2^30 (TLC's 32-bit integers); above that the round trip through the wide format decides.",
         technique="TLA+ specification of the v3 VLQ format + TLC trace validation, exhaustive small scopes",
     ),
     "C13": dict(
@@ -146,7 +146,7 @@ CHECKS = {
     ),
     "C07": dict(
         text="source/rope/buffer/size/to_writer of every tree (binary, multi-byte, composite) compared by TLC with Text/Buffer denotations; "
-             "writer fault sequences (error / zero-length / interrupted at every budget) checked against the Writer clauses.",
+             "writer fault sequences (error / zero-length / interrupted / one refused call / short writes at every budget) checked against the Writer clauses; the io::Write environment is itself a TLA+ state machine (IoM.tla, model-checked, keep-going variant refuted) whose 259 scripts are replayed against the real to_writer.",
         note=COMMON_NOTE + " Lossy UTF-8 decoding is specified in Text.tla (maximal-subpart rule).",
         technique="TLA+ denotational oracle + fault enumeration + TLC trace validation",
     ),
